@@ -521,7 +521,7 @@ def gen_conn(tier, rng):
                     for hist in itertools.product(alpha, repeat=d):
                         cases.append(("conn",) + init + tuple(str(t) for kv in hist for t in kv))
     # random histories in both axes steered to cross the other end point
-    n = 2500 if tier == "quick" else 40000
+    n = 4000 if tier == "quick" else 40000
     pools = [lambda: rng.randint(-6, 6), lambda: rng.randint(-10 ** 6, 10 ** 6), lambda: 914400 * rng.randint(-12, 12),
              lambda: rng.randint(-10 ** 13, 10 ** 13)]
     for _ in range(n):
@@ -609,7 +609,7 @@ def gen_grp(tier, rng):
         chain.append("%s 0.0.0.0 %d %d %d %d" % (k, -100 * i, 50 * i, 10 + i, 20 + i))
     chain += ["sp 0.0.0 -7 -7 3 3", "tb 0.0 1000 1000 5 5", "cxn 0 9 9 -9 -9", "pic - 1 2 3 4"]
     cases.append(("grp",) + tuple(chain))
-    n = 500 if tier == "quick" else 5000
+    n = 900 if tier == "quick" else 5000
     for i in range(n):
         # a third of the histories only add groups where the code recalculates (empty groups get a member before any sibling)
         cases.append(history(rng.randint(2, 22), with_norecalc=(i % 3 != 0), extreme=(i % 10 == 9)))
@@ -647,7 +647,7 @@ def gen_ff(tier, rng):
             return rng.uniform(0.001, 20000.0)
         return rng.choice(rare)
 
-    n = 4000 if tier == "quick" else 60000
+    n = 6000 if tier == "quick" else 60000
     for i in range(n):
         wild = rng.random() < 0.04
         sx, sy = num(), num()
@@ -706,6 +706,21 @@ def gen_malformed(tier, rng, valid):
     return cases
 
 
+def canonical():
+    """Small fixed histories first, so that a finding is reported on its smallest witness."""
+    return [
+        ("conn", 0, 0, 10, 5, "bx", 20, "ey", -3, "ex", 25, "by", -9, "bx", 20),
+        ("conn", 0, 0, COORD_HI, 5, "bx", -1),               # x written, cx refused
+        ("conn", 10, 0, 0, 5, "bx", COORD_LO - 1),           # flipH cleared, x refused: the end points swap
+        ("grp", "grp -", "sp 0 100 100 50 50", "grp 0", "tb 0 120 120 5 5"),
+        ("grp", "grp -", "sp 0 100 100 50 50", "ff 0 10 10 500 500", "tb 0 120 120 5 5"),
+        ("grp", "grp -", "grp 0", "grp 0.0", "grp 0.0.0", "sp 0.0.0.0 -100 50 10 20", "sp 0.0.0 7 -7 3 3",
+         "sp 0 1000 1000 5 5", "sp - 1 2 3 4"),
+        ("ff", "5/2", "-3/1", "f 3602879701896397 -55", "i 3", -1000, 25, "L 10/1 -3/1", "L 10/1 40/1", "L -7/1 40/1", "C",
+         "M 100/1 100/1", "L 10/1 40/1", "L 105/1 -20/1"),
+    ]
+
+
 def klass(case, out):
     if out == "badcase":
         return "malformed"
@@ -732,7 +747,7 @@ def nontrivial(case, out, obs):
 
 def run(ck, tier, rng):
     ck.build = coq_build("C17")
-    valid = gen_conn(tier, rng) + gen_grp(tier, rng) + gen_ff(tier, rng)
+    valid = canonical() + gen_conn(tier, rng) + gen_grp(tier, rng) + gen_ff(tier, rng)
     cases = valid + gen_malformed(tier, rng, valid)
     impl_out = []
     depth_seen = 0
